@@ -245,6 +245,8 @@ class TermGen:
         if kind == "e":
             return self.term(depth + 1)
         if kind == "E":
+            if self.allow_short and r.random() < 0.06:
+                return self.exprs(depth, 0, 1)      # empty / single-operand sums etc.
             return self.exprs(depth, 2, 3)
         if kind == "E0":
             return self.exprs(depth, 0, 2)
@@ -280,6 +282,7 @@ class TermGen:
         return ["n", cls, [self.field(k, depth) for k in kinds]]
 
     extra_fields: dict = {}
+    allow_short = False
 
 # }}}
 
